@@ -44,21 +44,17 @@ theorem reported_spec (cfg : Config) (sl0 : List SLine) :
   funext i
   exact reported_lineEvents cfg _ i
 
-/-- `without_terminator` cuts exactly the property's content, except for a bare-LF line under CRLF (F3) -/
-def bareLfUnderCrlf (lt : LineTerm) (line : Bytes) : Bool :=
-  lt == .crlf && line.getLast? == some 10 && !(line.dropLast.getLast? == some 13)
-
-theorem dropLast_eq_take (l : Bytes) : l.dropLast = l.take (l.length - 1) := by
-  rw [List.dropLast_eq_take]
-
-theorem withoutTerminator_eq_content (lt : LineTerm) (line : Bytes) (h : bareLfUnderCrlf lt line = false) :
+/-- `without_terminator` cuts exactly the property's content (since the repair of F3 also for a line that
+ends in a bare `\n` under CRLF) -/
+theorem withoutTerminator_eq_content (lt : LineTerm) (line : Bytes) :
     withoutTerminator line lt = content lt line := by
   rcases snoc_cases line with rfl | ⟨init, x, rfl⟩
-  · cases lt <;> simp [withoutTerminator, content, LineTerm.asBytes]
+  · cases lt <;> simp [withoutTerminator, content, LineTerm.asBytes, stripSuffix1]
   · cases lt with
     | byte b =>
-      simp only [withoutTerminator, LineTerm.asBytes, content, LineTerm.asByte, List.length_append,
-        List.length_cons, List.length_nil, Nat.add_sub_cancel]
+      have hne : (LineTerm.byte b == LineTerm.crlf) = false := by simp
+      simp only [withoutTerminator, hne, Bool.false_eq_true, if_false, LineTerm.asBytes, content, LineTerm.asByte,
+        List.length_append, List.length_cons, List.length_nil, Nat.add_sub_cancel]
       have hd : List.drop init.length (init ++ [x]) = [x] := by simp
       have ht : List.take init.length (init ++ [x]) = init := by simp
       rw [hd, ht]
@@ -67,23 +63,13 @@ theorem withoutTerminator_eq_content (lt : LineTerm) (line : Bytes) (h : bareLfU
       · have : ¬ ([x] == [b]) = true := by simp [hx]
         simp [this, hx]
     | crlf =>
-      rcases snoc_cases init with rfl | ⟨init2, y, rfl⟩
-      · by_cases hx : x = 10
-        · subst hx; simp [bareLfUnderCrlf] at h
-        · simp [withoutTerminator, content, LineTerm.asBytes, LineTerm.asByte, hx]
-      · have hl : (init2 ++ [y] ++ [x]).length - [13, 10].length = init2.length := by simp
-        have hd : List.drop init2.length (init2 ++ [y] ++ [x]) = [y, x] := by simp
-        have ht : List.take init2.length (init2 ++ [y] ++ [x]) = init2 := by simp
-        have hwt : withoutTerminator (init2 ++ [y] ++ [x]) LineTerm.crlf
-            = if ([y, x] == [13, 10]) = true then init2 else init2 ++ [y] ++ [x] := by
-          simp only [withoutTerminator, LineTerm.asBytes, hl, hd, ht]
-        rw [hwt]
-        by_cases hx : x = 10
-        · subst hx
-          by_cases hy : y = 13
-          · subst hy; simp [content, LineTerm.asByte]
-          · simp [bareLfUnderCrlf, hy] at h
-        · have : ¬ ([y, x] == [13, 10]) = true := by simp [hx]
-          simp [this, content, LineTerm.asByte, hx]
+      by_cases hx : x = 10
+      · subst hx
+        rcases snoc_cases init with rfl | ⟨init2, y, rfl⟩
+        · simp [withoutTerminator, content, LineTerm.asByte, stripSuffix1]
+        · by_cases hy : y = 13
+          · subst hy; simp [withoutTerminator, content, LineTerm.asByte, stripSuffix1]
+          · simp [withoutTerminator, content, LineTerm.asByte, stripSuffix1, hy]
+      · simp [withoutTerminator, content, LineTerm.asByte, stripSuffix1, hx]
 
 end RgVerif.GrepSpec
